@@ -65,6 +65,7 @@ HEALTH = {
     "rw:lhs-index-only-var": 0.01,
     "rw:condition-only-var": 0.01,
     "dot:redundant-edge": 0.02,
+    "dot:redundant-only-via-long-path": 0.005,
     "hist:prev-prev": 0.002,
 }
 TIMEOUT_IS_FAIL = True
@@ -483,6 +484,13 @@ def check_dot(spec):
         res.nontrivial = True
     if n_direct == 0:
         res.label("dot:no-edges")
+    graph = M.dep_graph(ms)
+    if any(v in M.reachable(graph, [x for w in graph[u] if w != v
+                                    for x in graph[w]])
+           and not any(v in graph[w] for w in graph[u])
+           for u in graph for v in graph[u]):
+        # a direct edge implied only by paths of length >= 3
+        res.label("dot:redundant-only-via-long-path")
     res.sample = {"depends_on": {s.id: sorted(s.deps) for s in ms},
                   "reduction": sorted(M.transitive_reduction(M.dep_graph(ms)))}
     return res
@@ -828,14 +836,35 @@ def rw_case(draw):
     return {"stream": draw(stream(max_len=4))}
 
 
+DOT_IDS = (*IDS, "a", "b", "c", "d", "e")
+
+
 @st.composite
 def dot_case(draw):
-    n = draw(st.integers(0, len(IDS)))
-    ids = draw(st.lists(st.sampled_from(IDS), min_size=n, max_size=n, unique=True))
-    deps = draw(_dag(ids, draw(st.sampled_from((10, 30, 50, 80)))))
+    mode = draw(st.integers(0, 2))
+    if mode == 0:
+        # one long chain in random list order plus a few shortcut edges: the
+        # shortcuts are redundant only through paths of length >= 3
+        n = draw(st.integers(4, len(DOT_IDS)))
+        chain = list(draw(st.permutations(DOT_IDS)))[:n]
+        deps = {i: [] for i in chain}
+        for k in range(1, n):
+            if draw(st.integers(0, 9)) > 0:
+                deps[chain[k]].append(chain[k - 1])
+        for _ in range(draw(st.integers(1, 4))):
+            j = draw(st.integers(2, n - 1))
+            i = draw(st.integers(0, j - 2))
+            if chain[i] not in deps[chain[j]]:
+                deps[chain[j]].append(chain[i])
+        ids = list(draw(st.permutations(chain)))
+    else:
+        n = draw(st.integers(0, len(IDS)))
+        ids = draw(st.lists(st.sampled_from(IDS), min_size=n, max_size=n,
+                            unique=True))
+        deps = draw(_dag(ids, draw(st.sampled_from((10, 30, 50, 80)))))
     out = []
     for i in ids:
-        if draw(st.integers(0, 2)) == 0:
+        if draw(st.integers(0, 3)) == 0:
             s = draw(_statement_body(list(VARS[:4])))
         else:
             s = {"kind": "Nop"}
@@ -931,10 +960,10 @@ def generate(ctx):
     def pair(s):
         ctx.judge("fuse", s)
         ctx.judge("disamb", s)
-    ctx.run_given(pair_case(), pair, ctx.n(2500, 75000))
-    ctx.run_given(rw_case(), lambda s: ctx.judge("rw", s), ctx.n(1500, 45000))
-    ctx.run_given(dot_case(), lambda s: ctx.judge("dot", s), ctx.n(1500, 45000))
-    run_machine(ctx, ctx.n(200, 6000))
+    ctx.run_given(pair_case(), pair, ctx.n(3500, 160000))
+    ctx.run_given(rw_case(), lambda s: ctx.judge("rw", s), ctx.n(2000, 90000))
+    ctx.run_given(dot_case(), lambda s: ctx.judge("dot", s), ctx.n(2200, 100000))
+    run_machine(ctx, ctx.n(300, 13000))
 
 # }}}
 
